@@ -251,16 +251,19 @@ def install(E):
             o = post_no_panic(I, res, 'S')
             if o: return o
             exp = expected_fn(I, params)
+            alts = exp if isinstance(exp, list) else [exp]
             got = I.W.rep(res.term) if isinstance(res, VBdd) else None
-            return [I.E.check_true(I, got == exp, label, {'got': show_key(got) if got else repr(res), 'expected': show_key(exp)})] + \
+            return [I.E.check_true(I, got in alts, label, {'got': show_key(got) if got else repr(res), 'expected': ' or '.join(show_key(a) for a in alts)})] + \
                 post_mk_choice_order(I) + post_size_change(I, params)
         return post
     def exists_expected(I, params):
         V, x = params[1].term, params[2].term
         if I.list_empty(V): return x
-        return ('app', B + 'exists_impl', ('hd', V), ('app', B + 'exists', ('tl', V), x))
+        # either defining equation of the fold (quantifiers commute): eliminate the head last, or first
+        return [('app', B + 'exists_impl', ('hd', V), ('app', B + 'exists', ('tl', V), x)),
+                ('app', B + 'exists', ('tl', V), ('app', B + 'exists_impl', ('hd', V), x))]
     E.add(FnSpec(B + 'exists', origins=lambda I, a: {('exclL', a[0], a[1])},
-                 post=ident_post(exists_expected, 'S: exists(V,b) is the fold: E([],b)=b, E(x::r,b)=exists_impl(x,E(r,b))')))
+                 post=ident_post(exists_expected, 'S: exists(V,b) is the fold: E([],b)=b, E(x::r,b)=exists_impl(x,E(r,b)) or E(r,exists_impl(x,b))')))
     def all_expected(I, params):
         V, x = params[1].term, params[2].term
         return ('app', B + 'not', ('app', B + 'exists', V, ('app', B + 'not', x)))
